@@ -47,8 +47,8 @@ THEOREMS = [
         "allow_any_instance", "tpMono_isResultCorrect", "mono_fails_C08J", "apMono_apOfKinds", "apMono_fails_C08G",
     ]
 ] + (
-    ["PEval.KernelBetter.better_table_check", "PEval.KernelBetter.better_code_table_eq_model", "PEval.KernelBetter.better_eq_skeleton", "PEval.KernelBetter.better_code_table_eq_isBetterThan", "PEval.KernelBetter.better_code_table_eq_isBetterThan_matcher", "PEval.KernelBetter.table_distance_direction", "PEval.KernelBetter.table_iou_direction", "PEval.KernelBetter.table_equal_not_better", "PEval.KernelBetter.table_none_not_better", "PEval.KernelBetter.table_better_mono"]
-    + ["PEval.KernelStatus.labelCorrect_table_check", "PEval.KernelStatus.resultCorrect_table_check", "PEval.KernelStatus.status_table_check", "PEval.KernelStatus.labelCorrect_code_table_eq_model", "PEval.KernelStatus.resultCorrect_code_table_eq_model", "PEval.KernelStatus.status_code_table_eq_model", "PEval.KernelStatus.resultCorrect_eq_skeleton", "PEval.KernelStatus.status_eq_skeleton", "PEval.KernelStatus.resultCorrect_eq_skeleton_passfail", "PEval.KernelStatus.status_eq_skeleton_passfail", "PEval.KernelStatus.labelCorrect_code_table_eq_isLabelCorrect", "PEval.KernelStatus.resultCorrect_code_table_eq_isResultCorrect", "PEval.KernelStatus.status_code_table_eq_getStatus", "PEval.KernelStatus.resultCorrect_code_table_eq_passfail", "PEval.KernelStatus.status_code_table_eq_passfail", "PEval.KernelStatus.table_status_tp_sound", "PEval.KernelStatus.table_status_no_gt"]
+    ["PEval.KernelBetter.better_table_check", "PEval.KernelBetter.better_code_table_eq_model", "PEval.KernelBetter.better_eq_skeleton", "PEval.KernelBetter.better_code_table_eq_isBetterThan", "PEval.KernelBetter.better_code_table_eq_isBetterThan_matcher", "PEval.KernelBetter.table_distance_direction", "PEval.KernelBetter.table_iou_direction", "PEval.KernelBetter.table_equal_not_better", "PEval.KernelBetter.table_none_not_better", "PEval.KernelBetter.table_better_mono", "PEval.MatchKernels.valBetter_consistent", "PEval.MatchKernels.forbIoU_consistent"]
+    + ["PEval.KernelStatus.labelCorrect_table_check", "PEval.KernelStatus.resultCorrect_table_check", "PEval.KernelStatus.status_table_check", "PEval.KernelStatus.labelCorrect_code_table_eq_model", "PEval.KernelStatus.resultCorrect_code_table_eq_model", "PEval.KernelStatus.status_code_table_eq_model", "PEval.KernelStatus.resultCorrect_eq_skeleton", "PEval.KernelStatus.status_eq_skeleton", "PEval.KernelStatus.resultCorrect_eq_skeleton_passfail", "PEval.KernelStatus.status_eq_skeleton_passfail", "PEval.KernelStatus.labelCorrect_code_table_eq_isLabelCorrect", "PEval.KernelStatus.resultCorrect_code_table_eq_isResultCorrect", "PEval.KernelStatus.status_code_table_eq_getStatus", "PEval.KernelStatus.resultCorrect_code_table_eq_passfail", "PEval.KernelStatus.status_code_table_eq_passfail", "PEval.KernelStatus.table_status_tp_sound", "PEval.KernelStatus.table_status_no_gt", "PEval.MatchKernels.valAP_consistent", "PEval.MatchKernels.valPF_consistent"]
 )
 TRUSTED = list(base.TRUSTED) + [
     "decision-table translator (harness/dtable.py, harness/dt_match.py): the symbolic stubs stand for the objects, labels, "
